@@ -121,6 +121,18 @@ impl EventIOProcessor for ScxmlEventIOProcessor {
         }
         // For SCXMLEventProcessor: Target is an SCXML session.
 
+        // W3C: the field 'invokeid' marks the events an invoked session returns to the session that invoked it.
+        // An event for any other session (or for the sender itself) is an ordinary event there; with the invoke id
+        // of the sender's own invocation it would be taken for the event of a cancelled child and be ignored.
+        let to_parent = target == SCXML_TARGET_PARENT
+            || match (global_lock.parent_session_id, target.strip_prefix(SCXML_TARGET_SESSION_ID_PREFIX)) {
+                (Some(parent), Some(sid)) => sid == parent.to_string(),
+                _ => false,
+            };
+        if !to_parent && target != SCXML_TARGET_INTERNAL {
+            event.invoke_id = None;
+        }
+
         match target {
             "" => {
                 global_lock.externalQueue.enqueue(Box::new(event));
